@@ -184,6 +184,14 @@ theorem C19_logistic_base (b r x0 : ℝ) (hb : 1 ≤ b) (hr : 0 < r) :
     have hp := Real.rpow_pos_of_pos hb0 (-(x - x0) / r)
     exact ⟨le_of_lt (one_div_pos.mpr (by linarith)), by rw [div_le_one (by linarith)]; linarith⟩
 
+/-- the logistic squash takes the value one half exactly at its midpoint, whatever the slope and the base (for an
+input that is, e.g., a one-element or a constant array the midpoint — the mean — is an entry) -/
+theorem C19_logistic_midpoint (b r x0 : ℝ) (hb : 0 < b) :
+    sqLogistic r x0 x0 = 1 / 2 ∧ sqLogisticBase b r x0 x0 = 1 / 2 := by
+  simp only [sqLogistic, sqLogisticBase, HasExp.exp, HasExp.pow, sub_self, neg_zero, zero_div, Real.exp_zero,
+    Real.rpow_zero]
+  norm_num
+
 theorem C19_sq_exponential (r : ℝ) (hr : 0 < r) :
     (∀ x y : ℝ, x ≤ y → sqExponential r x ≤ sqExponential r y) ∧
     ∀ x : ℝ, 0 ≤ x → 0 ≤ sqExponential r x ∧ sqExponential r x ≤ 1 := by
